@@ -18,6 +18,7 @@ CHECKS = {
     'C17': dict(level='exploration', runs=_e1v('C17', 'h_k3', ('ref', 'asan')), percase=5, deadline=dict(quick=150, thorough=1500)),
     'C18': dict(level='exploration', runs=_e1v('C18', 'h_k4', ('ref', 'asan')), percase=5, deadline=dict(quick=60, thorough=300)),
     'C16': dict(level='exploration', runs=_e1v('C16', 'h_rd', ('ref', 'asan')), percase=5, deadline=dict(quick=100, thorough=600)),
+    'C15': dict(level='exploration', runs=_e1v('C15', 'h_ilu', ('ref', 'obl')), percase=5, deadline=dict(quick=150, thorough=1500)),
     'C12': dict(level='exploration', runs=_e1('C12', 'h_e1x'), percase=5, deadline=dict(quick=150, thorough=1500)),
     'C13': dict(level='exploration', runs=_e1('C13', 'h_e1x'), percase=5, deadline=dict(quick=150, thorough=1500)),
     'C06': dict(level='model_checking', runs=_e1('C06', 'h_e3'), percase=20, deadline=dict(quick=150, thorough=1500),
@@ -96,3 +97,7 @@ META['C18'] = dict(engine='E1 small-scope enumerator', design_ref='5/C18', techn
 META['C16'] = dict(engine='E1 small-scope enumerator', design_ref='5/C16', technique='bounded exhaustive enumeration of matrices x file encodings produced by a reference writer, parsed by the real readers',
     text='Matrices (all patterns of order <=3, deviation-1 neighbourhoods of 5x5 bases, values needing full precision) x encodings: Harwell-Boeing and Rutherford-Boeing with four integer formats, six value formats (E, D exponent, 1P scale, F editing, 17 digits), with/without right-hand-side block, general and symmetric storage with all/some/no diagonal entries stored; Matrix Market general/symmetric with comment lines and every entry order (all permutations for <=4 entries); triplet files with and without header, 1- and 0-based; real and complex, single and double. Dimensions, nnz, pattern and values (strtod of the printed field) must match; red zones / ASan guard the arrays; exactly the three result arrays stay allocated.',
     note='kP with F editing is left out (the reader documents that it skips the scale factor). 0-based coordinate files are in the premise only when the reader\'s own detection rule (a zero index in the first entry / anywhere for the header-less reader) applies. F6, F24, F25 were repaired by fix: commits.')
+
+META['C15'] = dict(engine='E1 small-scope enumerator', design_ref='5/C15', technique='bounded exhaustive enumeration of the ILU option product on small patterns with dense reference oracle',
+    text='Full Cartesian product of drop rules x drop tolerances x fill factors x norms x MILU variants x row-permutation option x Trans x orderings x tunings x types on every structurally nonsingular pattern of order <=3 and deviation-1 neighbourhoods of 6x6 bases (zero diagonals and exactly cancelling values included) through xgsisx: returns, 0<=info<=n (n+1 only with ConditionNumber), permutations are bijections, U diagonal finite and non-zero, structure well-formed (repeated U rows allowed), A returned with its original row indices and scaled exactly as equed says, X equals the solve defined by the returned factors, and with dropping disabled and no pivot replaced the complete-LU identity holds.',
+    note=_E1_NOTE + ' The workspace / allocation-failure paths of the ILU driver are covered by C07/C08.')
